@@ -20,6 +20,10 @@ func init() {
 			"no-password-on-argv: taint analysis shows no credential reaches an exec.Command argument. NOT decided: that crypto/ssh and the ssh binary honour these settings (trusted), behaviour against a live server.",
 		Assumptions: []string{"crypto/ssh verifies the host key through HostKeyCallback; the OpenSSH client honours its options", "knownhosts.New builds a callback that accepts only keys present in the given file"},
 		Mutants: []Mutant{
+			{ID: "C14-standard-in-channel-auth", Desc: "the crypto/ssh transport announces in-channel authentication", Rule: "C14/in-channel-auth-set",
+				Edits: []Edit{{File: "transport/standard.go", Old: "func (t *Standard) Write(b []byte) error {", New: "func (t *Standard) GetInChannelAuthType() InChannelAuthType {\n\treturn InChannelAuthSSH\n}\n\nfunc (t *Standard) GetSSHArgs() *SSHArgs {\n\treturn t.SSHArgs\n}\n\nfunc (t *Standard) Write(b []byte) error {"}}},
+			{ID: "C14-platform-options-last", Desc: "platform options applied after the user's (a definition's port beats WithPort)", Rule: "C14/found-driver-options",
+				Edits: []Edit{{File: "platform/definition.go", Old: "\tfinalOpts := p.AsOptions()\n\tfinalOpts = append(finalOpts, opts...)", New: "\tfinalOpts := append([]util.Option{}, opts...)\n\tfinalOpts = append(finalOpts, p.AsOptions()...)"}}},
 			{ID: "C14-home-first", Desc: "ResolveFilePath prefers a file of the same name under the home directory", Rule: "C14/resolve-order",
 				Edits: []Edit{{File: "util/file.go", Old: "\t_, err := os.Stat(f)\n\tif err == nil {\n\t\treturn f, nil\n\t}\n", New: "\tif hd, herr := os.UserHomeDir(); herr == nil {\n\t\thf := fmt.Sprintf(\"%s/%s\", hd, strings.TrimPrefix(f, \"~/\"))\n\t\tif _, herr = os.Stat(hf); herr == nil {\n\t\t\treturn hf, nil\n\t\t}\n\t}\n\n\t_, err := os.Stat(f)\n\tif err == nil {\n\t\treturn f, nil\n\t}\n"}}},
 			{ID: "C14-asset-disables-strict-key", Desc: "an embedded definition gains an auth-strict-key option", Rule: "C14/embedded-defaults",
@@ -51,8 +55,11 @@ func init() {
 }
 
 func runC14(c *Ctx, r *Report) {
+	importFoundation(c, r, "C14", "driver-options")
 	r.Rule("C14/no-auth-steering", "the ssh argument list adds no option that steers authentication or host identity beyond the configured key / known-hosts / config file", 1)
 	checkNoAuthSteeringArgs(c, r, "C14/no-auth-steering")
+	r.Rule("C14/in-channel-auth-set", "exactly the system (ssh subprocess) and telnet transports ask for in-channel authentication; the crypto/ssh transport, which authenticates inside the protocol, never hands its password to the channel", 3)
+	checkInChannelAuthSet(c, r, "C14/in-channel-auth-set")
 	r.Rule("C14/resolve-order", "ResolveFilePath uses a configured path that exists as given; the home directory is only a fallback", 1)
 	r.Rule("C14/embedded-defaults", "no embedded platform definition disables host-key checking or authentication", 15)
 	checkResolveFilePathOrder(c, r, "C14/resolve-order")
@@ -200,11 +207,25 @@ func checkStandardOpenBase(c *Ctx, r *Report) {
 	okDial := false
 	sa := "param:" + os.Params[1].Name()
 	cfgp := "param:" + os.Params[2].Name()
+	addrKey := `fmt.Sprintf("%s:%d",{` + sa + `.Host,` + sa + `.Port})`
 	for _, p := range sp {
+		tcpDialled, handshake := "", false
 		for _, e := range p.Effects {
-			if e.Kind == "call" && e.What == "ssh.Dial" && len(e.Args) == 3 {
-				okDial = e.Args[0] == `"tcp"` && e.Args[1] == `fmt.Sprintf("%s:%d",{`+sa+`.Host,`+sa+`.Port})` && e.Args[2] == cfgp
+			if e.Kind != "call" {
+				continue
 			}
+			switch {
+			case e.What == "ssh.Dial" && len(e.Args) == 3:
+				okDial = e.Args[0] == `"tcp"` && e.Args[1] == addrKey && e.Args[2] == cfgp
+			case (e.What == "net.Dial" || e.What == "net.DialTimeout") && len(e.Args) >= 2 && e.Args[0] == `"tcp"` && e.Args[1] == addrKey:
+				// the two-step spelling: connect, then run the ssh handshake on that connection
+				tcpDialled = e.What + "(" + strings.Join(e.Args, ",") + ")#0"
+			case e.What == "ssh.NewClientConn" && len(e.Args) == 3:
+				handshake = tcpDialled != "" && e.Args[0] == tcpDialled && e.Args[1] == addrKey && e.Args[2] == cfgp
+			}
+		}
+		if handshake {
+			okDial = true
 		}
 	}
 	r.Check(okDial, rule, "openSession dial", c.Pos(os.Pos()), "ssh.Dial(tcp, host:port, cfg)", "the standard transport does not dial the configured host and port with the prepared client configuration")
